@@ -137,41 +137,69 @@ def sigkey(sig):
 
 
 def explore(check, tier, seed, nproc=None, log=print):
+    """runs every state of the check in a process pool.  Two protocols:
+    * check.states(tier, seed) -> complete list (engine L)
+    * check.levels(tier, seed) -> generator yielding batches of states and receiving their results (engine H: a
+      level-synchronous breadth-first search that prunes on the state digests returned by the workers)"""
     t0 = time.time()
-    st = check.states(tier, seed)
     n_inadm = 0
-    if isinstance(st, tuple):
-        st, n_inadm = st
-    st = list(st)
-    if not st:
-        raise InternalError("empty state space")
-    nproc = nproc or int(os.environ.get("OASMC_NPROC", os.cpu_count() or 4))
-    nproc = max(1, min(nproc, len(st)))
     scratch = tempfile.mkdtemp(prefix="oasmc_%s_" % check.ID)
-    results = [None] * len(st)
+    nproc = nproc or int(os.environ.get("OASMC_NPROC", os.cpu_count() or 4))
+    serial = nproc == 1 or bool(os.environ.get("OASMC_SERIAL"))
+    all_states, all_results = [], []
+    ex = None
     try:
-        if nproc == 1 or os.environ.get("OASMC_SERIAL"):
+        if serial:
             _worker_init(check.__name__, scratch)
-            for i, s in enumerate(st):
-                results[i] = _safe_run(s)
         else:
             ctx = mp.get_context("fork")
-            # order states so that expensive ones are spread: keep lexicographic order but small chunks
+            ex = cf.ProcessPoolExecutor(nproc, mp_context=ctx, initializer=_worker_init, initargs=(check.__name__, scratch))
+
+        def run_batch(st):
+            if not st:
+                return []
+            if serial:
+                return [_safe_run(s) for s in st]
             chunk = max(1, min(16, len(st) // (nproc * 8)))
-            with cf.ProcessPoolExecutor(nproc, mp_context=ctx, initializer=_worker_init, initargs=(check.__name__, scratch)) as ex:
-                try:
-                    for i, r in enumerate(ex.map(_safe_run, st, chunksize=chunk)):
-                        results[i] = r
-                except cf.process.BrokenProcessPool as e:
-                    raise InternalError("worker process died: %r" % (e,))
+            try:
+                return list(ex.map(_safe_run, st, chunksize=chunk))
+            except cf.process.BrokenProcessPool as e:
+                raise InternalError("worker process died: %r" % (e,))
+
+        if hasattr(check, "levels"):
+            g = check.levels(tier, seed)
+            try:
+                batch = next(g)
+                while True:
+                    batch = list(batch)
+                    res = run_batch(batch)
+                    all_states += batch
+                    all_results += res
+                    errs = [(s, r["error"]) for s, r in zip(batch, res) if "error" in r]
+                    if errs:
+                        raise InternalError("harness error in %d state(s); first at state %s:\n%s" % (len(errs), jdump(errs[0][0])[:600], errs[0][1]))
+                    batch = g.send(res)
+            except StopIteration as e:
+                if e.value:
+                    n_inadm = int(e.value)
+        else:
+            st = check.states(tier, seed)
+            if isinstance(st, tuple):
+                st, n_inadm = st
+            all_states = list(st)
+            all_results = run_batch(all_states)
     finally:
+        if ex is not None:
+            ex.shutdown(wait=True, cancel_futures=True)
         os.chdir(ROOT)
         shutil.rmtree(scratch, ignore_errors=True)
-    errs = [(i, r["error"]) for i, r in enumerate(results) if "error" in r]
+    if not all_states:
+        raise InternalError("empty state space")
+    errs = [(i, r["error"]) for i, r in enumerate(all_results) if "error" in r]
     if errs:
         i, e = errs[0]
-        raise InternalError("harness error in %d state(s); first at state %s:\n%s" % (len(errs), jdump(st[i])[:600], e))
-    return st, results, n_inadm, time.time() - t0
+        raise InternalError("harness error in %d state(s); first at state %s:\n%s" % (len(errs), jdump(all_states[i])[:600], e))
+    return all_states, all_results, n_inadm, time.time() - t0
 
 
 def letter_hits(states, maxvals=40):
